@@ -251,6 +251,33 @@ fn answer(a: &[&str]) -> String {
                 _ => "ERR".into(),
             }
         }
+        // cmd_len (GGGG EEEE len)* -> "<value of (0000,0000)> <bytes written in Implicit VR LE for the other group-0000 elements>"
+        "cmd_len" => {
+            use dicom_core::{DataElement, VR};
+            use dicom_object::InMemDicomObject;
+            let mut elems = Vec::new();
+            for c in a[1..].chunks(3) {
+                let t = Tag(u16::from_str_radix(c[0], 16).unwrap(), u16::from_str_radix(c[1], 16).unwrap());
+                let l: usize = c[2].parse().unwrap();
+                elems.push(DataElement::new(t, VR::OB, PrimitiveValue::U8(vec![0x55u8; l].into())));
+            }
+            let obj = InMemDicomObject::command_from_element_iter(elems);
+            let glen = obj.element(Tag(0, 0)).unwrap().to_int::<u32>().unwrap();
+            let ts = dicom_transfer_syntax_registry::entries::IMPLICIT_VR_LITTLE_ENDIAN.erased();
+            let mut bytes: Vec<u8> = Vec::new();
+            obj.write_dataset_with_ts(&mut bytes, &ts).unwrap();
+            // walk the implicit VR LE stream: count the bytes of group-0000 elements other than (0000,0000)
+            let mut at = 0usize;
+            let mut count = 0usize;
+            while at + 8 <= bytes.len() {
+                let g = u16::from_le_bytes([bytes[at], bytes[at + 1]]);
+                let e = u16::from_le_bytes([bytes[at + 2], bytes[at + 3]]);
+                let l = u32::from_le_bytes([bytes[at + 4], bytes[at + 5], bytes[at + 6], bytes[at + 7]]) as usize;
+                if g == 0 && e != 0 { count += 8 + l; }
+                at += 8 + l;
+            }
+            format!("{} {}", glen, count)
+        }
         // ts_dump -> one line per registered transfer syntax
         "ts_dump" => {
             use dicom_encoding::transfer_syntax::TransferSyntaxIndex;
